@@ -44,6 +44,25 @@ def _ck(x):
     return x[1][0] if x[0] == 'DIRTY' else x[1]
 
 
+def _norm8(t):
+    """`8 in (x, y.order)` -> `x == 8 or y == 8`; `8 not in (..)` -> its negation; `b.order == 8` -> `b == 8` (a Bond compares equal to its order)"""
+    def name_of(e):
+        if isinstance(e, ast.Attribute) and e.attr == 'order' and isinstance(e.value, ast.Name):
+            return e.value
+        return e
+    if isinstance(t, ast.Compare) and len(t.ops) == 1 and isinstance(t.ops[0], (ast.In, ast.NotIn)) and isinstance(t.left, ast.Constant) and t.left.value == 8 \
+            and isinstance(t.comparators[0], (ast.Tuple, ast.List, ast.Set)) and t.comparators[0].elts:
+        eqs = [ast.Compare(left=name_of(e), ops=[ast.Eq()], comparators=[ast.Constant(value=8)]) for e in t.comparators[0].elts]
+        r = eqs[0] if len(eqs) == 1 else ast.BoolOp(op=ast.Or(), values=eqs)
+        return r if isinstance(t.ops[0], ast.In) else ast.UnaryOp(op=ast.Not(), operand=r)
+    if isinstance(t, ast.BoolOp):
+        return ast.BoolOp(op=t.op, values=[_norm8(v) for v in t.values])
+    if isinstance(t, ast.Compare) and len(t.ops) == 1 and isinstance(t.ops[0], (ast.Eq, ast.NotEq)) and isinstance(t.comparators[0], ast.Constant) \
+            and t.comparators[0].value == 8:
+        return ast.Compare(left=name_of(t.left), ops=t.ops, comparators=t.comparators)
+    return t
+
+
 class Ctx:
     """analysis context of one function activation"""
     __slots__ = ('func', 'cls', 'recv', 'bind', 'depth', 'aliases', 'stack', 'nested_active')
@@ -315,6 +334,15 @@ class Protocol:
                 else:
                     res.append(self.owner_of(ctx, bd[1], seen))
             res = [r for r in res if r[0] != 'U'] or [('U',)]
+            # `if flag: u = x.copy() else: u = x` is the statement spelling of `u = x.copy() if flag else x`: treated like the conditional expression
+            # (fresh on the copying branch; the in-place branch is guarded by the same flag where it flushes)
+            if len(binds) == 2 and all(bd[0] == 'expr' for bd in binds) and {r[0] for r in res} == {'F', 'R'}:
+                vals = [bd[1] for bd in binds]
+                for n_ in ast.walk(ctx.func.node):
+                    if isinstance(n_, ast.If) and len(n_.body) == 1 and len(n_.orelse) == 1 and all(isinstance(x, ast.Assign) for x in (n_.body[0], n_.orelse[0])) \
+                            and {id(n_.body[0].value), id(n_.orelse[0].value)} == {id(v) for v in vals}:
+                        fr = next(r for r in res if r[0] == 'F')
+                        return ('F', node.id, None) if len(fr) == 2 and fr[1] is None else fr
             # prefer R over F over P over L
             for tag in ('R', 'F', 'P', 'L'):
                 for r in res:
@@ -485,6 +513,10 @@ class Protocol:
             t = t.operand
             neg = not neg
         truth = branch != neg
+        t = _norm8(t)
+        while isinstance(t, ast.UnaryOp) and isinstance(t.op, ast.Not):
+            t = t.operand
+            truth = not truth
         # disjunction of `X == 8` tests: false branch => every X != 8
         parts = t.values if isinstance(t, ast.BoolOp) and isinstance(t.op, ast.Or) else [t]
         eq8 = []
